@@ -23,8 +23,7 @@ EXPLANATION = (
 )
 
 
-def rule_r1(ctx):
-    rid = "C09.R1"
+def rule_r1(ctx, rid="C09.R1"):
     ctx.r.rule(rid, "close exactly once: on every path (normal and exceptional) from the creation of app_iter to an exit exactly one of close() / no close attribute / completed hand-over occurs")
     p = ctx.p
     f = p.func("task.WSGITask.execute")
@@ -395,7 +394,14 @@ def rule_r11(ctx):
     c11.rule_r1(ctx, rid="C09.R11")
 
 
-RULES = [rule_r1, rule_r2, rule_r3, rule_r4, rule_r5, rule_r6, rule_r7, rule_r8, rule_r9, rule_r10, rule_r11]
+def rule_r12(ctx):
+    """Shared with C13.R1 (a worker's flush never closes the socket itself: the I/O thread may be about to select() on it) and C13.R5 (a socket error swallowed by a flush marks the channel for closing, which is what releases a paused task and lets its iterable be closed)."""
+    from . import c13
+    c13.rule_r1(ctx, rid="C09.R12")
+    c13.rule_r5(ctx, rid="C09.R12")
+
+
+RULES = [rule_r1, rule_r2, rule_r3, rule_r4, rule_r5, rule_r6, rule_r7, rule_r8, rule_r9, rule_r10, rule_r11, rule_r12]
 
 from ..selftest import M, T, V  # noqa: E402
 
